@@ -262,6 +262,15 @@ def call_builtin(ex, f, args, kwargs, line):
     if name == "round":
         if all(not is_sym(a) for a in args):
             return round(*args)
+        if len(args) == 1 and isinstance(args[0], SReal):
+            # round half to even, exactly, on the real the float stands for (float-as-real)
+            x = args[0].e
+            r0 = z3.ToInt(x + z3.RealVal(1) / 2)
+            half = z3.ToReal(r0) == x + z3.RealVal(1) / 2
+            ex.ctx.tags.add("float-as-real")
+            return mk_int(z3.If(z3.And(half, r0 % 2 != 0), r0 - 1, r0))
+        if len(args) == 1 and isinstance(args[0], SInt):
+            return args[0]
         raise Unsupported("round() of symbolic value")
     if name == "chr":
         (x,) = args
